@@ -268,6 +268,17 @@ let run_case op t =
       let n = next_int t in
       let es = List.init n (fun _ -> elem_of_code (next_int t)) in
       (join ("ok" :: List.map b2s (tuple_traits_m es)), join ("ok" :: List.map b2s (tuple_traits_spec es)))
+  | "voidret" ->
+      let x = next_z t in
+      (join [ "ok"; str_of_z (void_ret_m x) ], join [ "ok"; str_of_z (void_ret_spec x) ])
+  | "makepairref" ->
+      let x = next_z t in let y = next_z t in
+      let a' = Z.add x (zi 1) in
+      let pr f =
+        join [ "ok"; string_of_int (code_of_kind (f (Some false))); string_of_int (code_of_kind (f None));
+               string_of_int (code_of_kind (f (Some true))); string_of_int (code_of_kind (f None));
+               str_of_z a'; str_of_z a'; str_of_z x; str_of_z y ] in
+      (pr make_pair_member_m, pr make_pair_member_spec)
   | "retref" ->
       (* every wrapper returns the callable's A& result as it is: decltype(auto) / invoke_result_t of the call *)
       let which = next_int t in
